@@ -177,4 +177,146 @@ theorem foldl_insertMap_distinct {α : Type} (xs acc : List (List UInt8 × α))
     rw [ih (acc ++ [x]) (by simpa using h)]
     simp
 
+/-! ### minimal encodings: `toInt` is injective on them -/
+
+/-- The minimal two's-complement encoding (what `BigInt::to_signed_bytes_be` and the driver's own integer
+conversions write): at least one byte, no redundant leading 0x00 (before a byte < 0x80) and no redundant
+leading 0xff (before a byte ≥ 0x80).  The empty string (which the code treats as 0) is not minimal: 0 is `[00]`. -/
+def minimalVarint : List UInt8 → Bool
+  | [] => false
+  | [_] => true
+  | b :: c :: _ => !(b.toNat = 0 && c.toNat < 128) && !(b.toNat = 255 && 128 ≤ c.toNat)
+
+theorem toInt_bounds (b : UInt8) (rest : List UInt8) :
+    -((128 * 256 ^ rest.length : Nat) : Int) ≤ toInt (b :: rest) ∧
+      toInt (b :: rest) < ((128 * 256 ^ rest.length : Nat) : Int) := by
+  have hr := natBE_lt rest
+  have hb : b.toNat < 256 := UInt8.toNat_lt b
+  simp only [toInt, natBE, Nat.pow_succ]
+  generalize 256 ^ rest.length = P at *
+  generalize natBE rest = r at *
+  have h1 : b.toNat * P ≤ 255 * P := Nat.mul_le_mul_right _ (by omega)
+  split
+  · next h =>
+    have h2 : 128 * P ≤ b.toNat * P := Nat.mul_le_mul_right _ h
+    generalize b.toNat * P = t at *
+    omega
+  · next h =>
+    have h2 : b.toNat * P ≤ 127 * P := Nat.mul_le_mul_right _ (by omega)
+    generalize b.toNat * P = t at *
+    omega
+
+theorem toInt_minimal_big (b c : UInt8) (r : List UInt8) (hm : minimalVarint (b :: c :: r) = true) :
+    ((128 * 256 ^ r.length : Nat) : Int) ≤ toInt (b :: c :: r) ∨
+      toInt (b :: c :: r) < -((128 * 256 ^ r.length : Nat) : Int) := by
+  have hr := natBE_lt r
+  have hb : b.toNat < 256 := UInt8.toNat_lt b
+  have hc : c.toNat < 256 := UInt8.toNat_lt c
+  simp only [minimalVarint, Bool.and_eq_true, Bool.not_eq_true', Bool.and_eq_false_iff, decide_eq_false_iff_not] at hm
+  simp only [toInt, natBE, List.length_cons, Nat.pow_succ]
+  generalize 256 ^ r.length = Q at *
+  generalize natBE r = n at *
+  have e1 : b.toNat * (Q * 256) = b.toNat * Q * 256 := (Nat.mul_assoc _ _ _).symm
+  rw [e1]
+  have hcU : c.toNat * Q ≤ 255 * Q := Nat.mul_le_mul_right _ (by omega)
+  have hbU : b.toNat * Q ≤ 255 * Q := Nat.mul_le_mul_right _ (by omega)
+  by_cases hb0 : b.toNat = 0
+  · have hc128 : 128 ≤ c.toNat := by omega
+    have h2 : 128 * Q ≤ c.toNat * Q := Nat.mul_le_mul_right _ hc128
+    simp only [hb0]
+    generalize c.toNat * Q = w at *
+    left; simp; omega
+  · by_cases hlt : b.toNat < 128
+    · have h2 : 1 * Q ≤ b.toNat * Q := Nat.mul_le_mul_right _ (by omega)
+      have : ¬ b.toNat ≥ 128 := by omega
+      simp only [this, if_false]
+      generalize c.toNat * Q = w at *
+      generalize b.toNat * Q = u at *
+      left; omega
+    · have hge : b.toNat ≥ 128 := by omega
+      simp only [hge, if_true]
+      by_cases h255 : b.toNat = 255
+      · have hc128 : c.toNat < 128 := by omega
+        have h2 : c.toNat * Q ≤ 127 * Q := Nat.mul_le_mul_right _ (by omega)
+        simp only [h255]
+        generalize c.toNat * Q = w at *
+        right; omega
+      · have h2 : b.toNat * Q ≤ 254 * Q := Nat.mul_le_mul_right _ (by omega)
+        generalize c.toNat * Q = w at *
+        generalize b.toNat * Q = u at *
+        right; omega
+
+theorem minimal_length_le (a b : List UInt8) (ha : minimalVarint a = true) (hb : minimalVarint b = true)
+    (h : toInt a = toInt b) : a.length ≤ b.length := by
+  match a, b with
+  | [], _ => simp [minimalVarint] at ha
+  | _, [] => simp [minimalVarint] at hb
+  | [_], _ :: _ => simp
+  | x :: y :: r, z :: s =>
+    by_cases hl : s.length ≤ r.length
+    · exfalso
+      have hp : 256 ^ s.length ≤ 256 ^ r.length := Nat.pow_le_pow_right (by omega) hl
+      have h1 := toInt_bounds z s
+      have h2 := toInt_minimal_big x y r ha
+      rw [h] at h2
+      generalize 256 ^ s.length = S at *
+      generalize 256 ^ r.length = R at *
+      omega
+    · simp only [List.length_cons]; omega
+
+theorem natBE_inj (a b : List UInt8) (hl : a.length = b.length) (h : natBE a = natBE b) : a = b := by
+  induction a generalizing b with
+  | nil => cases b with
+    | nil => rfl
+    | cons _ _ => simp at hl
+  | cons x xs ih =>
+    cases b with
+    | nil => simp at hl
+    | cons y ys =>
+      have hl' : xs.length = ys.length := by simpa using hl
+      have hx := natBE_lt xs
+      have hy := natBE_lt ys
+      simp only [natBE] at h
+      rw [hl'] at h hx
+      generalize 256 ^ ys.length = P at *
+      have hxy : x.toNat = y.toNat := by
+        rcases Nat.lt_trichotomy x.toNat y.toNat with hlt | heq | hgt
+        · have : (x.toNat + 1) * P ≤ y.toNat * P := Nat.mul_le_mul_right _ hlt
+          rw [Nat.add_mul] at this
+          generalize x.toNat * P = u at *
+          generalize y.toNat * P = v at *
+          omega
+        · exact heq
+        · have : (y.toNat + 1) * P ≤ x.toNat * P := Nat.mul_le_mul_right _ hgt
+          rw [Nat.add_mul] at this
+          generalize x.toNat * P = u at *
+          generalize y.toNat * P = v at *
+          omega
+      rw [hxy] at h
+      have hn : natBE xs = natBE ys := by omega
+      rw [UInt8.toNat_inj.1 hxy, ih ys hl' hn]
+
+theorem toInt_inj_same_length (a b : List UInt8) (hl : a.length = b.length) (h : toInt a = toInt b) : a = b := by
+  match a, b with
+  | [], [] => rfl
+  | [], _ :: _ => simp at hl
+  | _ :: _, [] => simp at hl
+  | x :: xs, y :: ys =>
+    have hl' : xs.length = ys.length := by simpa using hl
+    have hx := natBE_lt (x :: xs)
+    have hy := natBE_lt (y :: ys)
+    apply natBE_inj _ _ hl
+    simp only [toInt, hl'] at h
+    simp only [List.length_cons, hl'] at hx hy
+    generalize natBE (x :: xs) = p at *
+    generalize natBE (y :: ys) = q at *
+    generalize 256 ^ (ys.length + 1) = P at *
+    split at h <;> split at h <;> omega
+
+/-- Two minimal encodings of the same integer are the same bytes. -/
+theorem toInt_inj_minimal (a b : List UInt8) (ha : minimalVarint a = true) (hb : minimalVarint b = true)
+    (h : toInt a = toInt b) : a = b :=
+  toInt_inj_same_length a b
+    (Nat.le_antisymm (minimal_length_le a b ha hb h) (minimal_length_le b a hb ha h.symm)) h
+
 end ScyllaVerif.Proofs.VarintNorm
